@@ -117,7 +117,7 @@ theorem specFrom_ws (lno pos : Nat) (acc : Option String) (toks0 : List Tok) (ws
 theorem specFrom_semi_end (lno pos : Nat) (acc : Option String) (toks0 : List Tok) :
     specFrom lno pos acc toks0 [';'] =
       .ok (toks0 ++ (acc.map fun s => (⟨.strLit, s, ⟨lno, pos + 1⟩⟩ : Tok)).toList ++
-        [⟨.semi, "", ⟨lno, pos + 1⟩⟩], "") := by
+        [⟨.semi, "", ⟨lno, pos + 1⟩⟩], none) := by
   obtain ⟨r, hs, hc⟩ := select_of_scanOne (scanOne_semi [])
   obtain ⟨hk, hne⟩ := kind_of_clsOf_tok hc
   rw [specFrom_tok hs hk hne]
@@ -125,35 +125,37 @@ theorem specFrom_semi_end (lno pos : Nat) (acc : Option String) (toks0 : List To
 
 /-! ## merging -/
 
-theorem pendingOf_getD (p : String) : (pendingOf p).getD "" = p := by
-  by_cases h : p.isEmpty = true
-  · simp [pendingOf, String.isEmpty_iff.1 h]
-  · simp [pendingOf, h]
-
-/-- `"a"` (white space) `"b";` with `p` carried in: ONE string token with text `p ++ a ++ b`,
-positioned at the `;` -/
-theorem lexLine_two_strings (lno : Nat) (p : String) (a sep b : List Char)
+/-- `"a"` (white space) `"b";` with `p` carried in: ONE string token with text `p ++ a ++ b`
+(just `a ++ b` if nothing is carried in), positioned at the `;` -/
+theorem lexLine_two_strings (lno : Nat) (p : Option String) (a sep b : List Char)
     (ha : ∀ c ∈ a, c ≠ '"') (hb : ∀ c ∈ b, c ≠ '"') (hsep : sep.all isWs = true) :
     lexLine lno p (String.ofList ('"' :: (a ++ '"' :: (sep ++ '"' :: (b ++ ['"', ';']))))) =
-      .ok ([⟨.strLit, p ++ String.ofList a ++ String.ofList b,
+      .ok ([⟨.strLit, p.getD "" ++ String.ofList a ++ String.ofList b,
               ⟨lno, byteLen a + 2 + byteLen sep + (byteLen b + 2) + 1⟩⟩,
-            ⟨.semi, "", ⟨lno, byteLen a + 2 + byteLen sep + (byteLen b + 2) + 1⟩⟩], "") := by
+            ⟨.semi, "", ⟨lno, byteLen a + 2 + byteLen sep + (byteLen b + 2) + 1⟩⟩], none) := by
   rw [← specFrom_zero, String.toList_ofList, specFrom_string _ _ _ _ a _ ha,
     specFrom_ws _ _ _ _ sep '"' _ hsep (by decide), specFrom_string _ _ _ _ b _ hb, specFrom_semi_end]
-  simp [pendingOf_getD]
+  simp
 
-/-- `"a"` alone on a line with `p` carried in: no token, `p ++ a` is carried on -/
-theorem lexLine_string_only (lno : Nat) (p : String) (a : List Char) (ha : ∀ c ∈ a, c ≠ '"') :
-    lexLine lno p (String.ofList ('"' :: (a ++ ['"']))) = .ok ([], p ++ String.ofList a) := by
+/-- `"a"` alone on a line with `p` carried in: no token, `p ++ a` is carried on - as a pending
+literal even if it is empty -/
+theorem lexLine_string_only (lno : Nat) (p : Option String) (a : List Char) (ha : ∀ c ∈ a, c ≠ '"') :
+    lexLine lno p (String.ofList ('"' :: (a ++ ['"']))) = .ok ([], some (p.getD "" ++ String.ofList a)) := by
   rw [← specFrom_zero, String.toList_ofList, specFrom_string _ _ _ _ a _ ha, specFrom_nil]
-  simp [pendingOf_getD]
 
 /-- `"b";` with `p` carried in: one string token `p ++ b` -/
-theorem lexLine_string_semi (lno : Nat) (p : String) (b : List Char) (hb : ∀ c ∈ b, c ≠ '"') :
+theorem lexLine_string_semi (lno : Nat) (p : Option String) (b : List Char) (hb : ∀ c ∈ b, c ≠ '"') :
     lexLine lno p (String.ofList ('"' :: (b ++ ['"', ';']))) =
-      .ok ([⟨.strLit, p ++ String.ofList b, ⟨lno, byteLen b + 2 + 1⟩⟩,
-            ⟨.semi, "", ⟨lno, byteLen b + 2 + 1⟩⟩], "") := by
+      .ok ([⟨.strLit, p.getD "" ++ String.ofList b, ⟨lno, byteLen b + 2 + 1⟩⟩,
+            ⟨.semi, "", ⟨lno, byteLen b + 2 + 1⟩⟩], none) := by
   rw [← specFrom_zero, String.toList_ofList, specFrom_string _ _ _ _ b _ hb, specFrom_semi_end]
-  simp [pendingOf_getD]
+  simp
+
+/-- `;` with the literal `q` carried in (possibly the EMPTY literal): the string token `q` -/
+theorem lexLine_semi_only (lno : Nat) (q : String) :
+    lexLine lno (some q) (String.ofList [';']) =
+      .ok ([⟨.strLit, q, ⟨lno, 1⟩⟩, ⟨.semi, "", ⟨lno, 1⟩⟩], none) := by
+  rw [← specFrom_zero, String.toList_ofList, specFrom_semi_end]
+  simp
 
 end Resynth.LexLemmas
